@@ -38,7 +38,10 @@ CLASSES = ["%s/monitor:%s" % (a, b) for a in ("janus", "symmetric", "sei") for b
           ["janus/order%d" % o for o in JANUS_ORDERS] + ["janus/on_grid", "janus/off_grid_image", "janus/dt<0", "janus/gravity:basic", "janus/gravity:compensated",
            "janus/gravity:none", "janus/testparticles:type0", "janus/testparticles:type1",
            "janus/compensated+testparticles"] + ["janus/reassign:" + w for w in SETTINGS_NAMES] + \
-          ["janus/reassign_leg%d" % i for i in range(3)] + ["janus_tp/compensated+testparticles", "janus_tp/testparticles:type0",
+          ["janus/reassign_leg%d" % i for i in range(3)] + \
+          ["%s/drive:%s" % (a_, b_) for a_ in ("janus", "janus_tp", "symmetric", "sei")
+           for b_ in ("steps/manual/steps", "integrate/manual/integrate", "integrate/integrate/integrate",
+                      "steps/integrate/integrate")] + ["janus_tp/compensated+testparticles", "janus_tp/testparticles:type0",
            "janus_tp/testparticles:type1"] + \
           ["symmetric/leapfrog", "sei/sei", "sei/gravity", "sei/OMEGAZ"] + \
           ["symmetric/whfast:%s:%d" % (c, s) for c in S.WH_COORDS for s in (0, 1)] + \
@@ -94,7 +97,35 @@ def reassign(sim, which):
             sim.dt = sim.dt
 
 
-def leg(sim, n, points):
+# how the two legs are driven: steps(n) or integrate(t + (n-1/2) dt, exact_finish_time=0) (= exactly n steps), and
+# whether dt is negated by hand at the turning point or left to integrate() (which flips the sign of dt itself
+# when the requested time lies behind: r->dt = copysign(r->dt, direction))
+drive = st.sampled_from([["steps", "manual", "steps"], ["steps", "manual", "steps"], ["integrate", "manual", "integrate"],
+                         ["steps", "manual", "integrate"], ["integrate", "integrate", "integrate"],
+                         ["steps", "integrate", "integrate"]])
+
+
+def go(sim, n, dt, how):
+    """Advance exactly n steps of size dt (sim.dt may still have the other sign when how == "integrate")."""
+    if how == "steps":
+        sim.steps(n)
+        return
+    before = sim.steps_done
+    sim.integrate(sim.t + (n - 0.5) * dt, exact_finish_time=0)
+    if sim.steps_done - before != n:
+        raise RuntimeError("harness: integrate() took %d steps instead of %d" % (sim.steps_done - before, n))
+
+
+def leg(sim, n, points, how="steps", dt=None):
+    if how != "steps":
+        for frac, which in points:
+            reassign(sim, which)      # integrate-driven leg: re-assignments happen before the leg
+        go(sim, n, dt, how)
+        return
+    _leg_steps(sim, n, points)
+
+
+def _leg_steps(sim, n, points):
     """n steps with redundant re-assignments after int(frac*n) steps."""
     done = 0
     for frac, which in sorted(points, key=lambda t: t[0]):
@@ -139,6 +170,7 @@ janus_tp_case = st.fixed_dictionaries({
     "n_active": st.integers(2, 3),
     "testparticle_type": st.sampled_from([0, 1]),
     "reconf": reconf,
+    "drive": drive,
 })
 XYZ = ("x", "y", "z", "vx", "vy", "vz")
 
@@ -216,7 +248,9 @@ def run_janus(c, ctx):
     ctx.cls("on_grid" if on_grid and init_bits == expect_bits else "off_grid_image")
     if c["backward_first"]:
         ctx.cls("dt<0")
-    leg(sim, n, [(fr, wh) for lg, fr, wh in rc if lg == 0])
+    dr = c.get("drive") or ["steps", "manual", "steps"]
+    ctx.cls("drive:" + "/".join(dr))
+    leg(sim, n, [(fr, wh) for lg, fr, wh in rc if lg == 0], dr[0], dt)
     far_int = [[getattr(sim.ri_janus.p_int[i], k) for k in XYZ] for i in range(N)]
     moved = max(abs(far_int[i][j] - grid[i][j]) for i in range(N) for j in range(6))
     far_t = sim.t
@@ -238,8 +272,9 @@ def run_janus(c, ctx):
     for lg, fr, wh in rc:
         if lg == 1:
             reassign(sim, wh)
-    sim.dt = -dt
-    leg(sim, n, [(fr, wh) for lg, fr, wh in rc if lg == 2])
+    if dr[1] == "manual":
+        sim.dt = -dt
+    leg(sim, n, [(fr, wh) for lg, fr, wh in rc if lg == 2], dr[2], -dt)
     got_bits = [[rb.dbits(getattr(sim.particles[i], k)) for k in XYZ] for i in range(N)]
     got_int = [[getattr(sim.ri_janus.p_int[i], k) for k in XYZ] for i in range(N)]
     if got_bits != expect_bits:
@@ -293,6 +328,7 @@ sym_case = st.fixed_dictionaries({
     "dt_frac": st.sampled_from([0.005, 0.01, 0.02, 0.05]),
     "backward_first": st.booleans(),
     "monitor": monitors,
+    "drive": drive,
 })
 
 sei_case = st.fixed_dictionaries({
@@ -307,6 +343,7 @@ sei_case = st.fixed_dictionaries({
     "dt_frac": st.sampled_from([0.005, 0.01, 0.02, 0.05]),
     "backward_first": st.booleans(),
     "monitor": monitors,
+    "drive": drive,
 })
 
 
@@ -348,13 +385,17 @@ def too_close(sim, dt, dmin):
     return False
 
 
-def round_trip(sim, n, dt, ctx, what, P_min, details, dmin=None):
+def round_trip(sim, n, dt, ctx, what, P_min, details, dmin=None, dr=None):
     """n steps, synchronise, dt -> -dt, n steps, synchronise; assert return within the tolerance.
     dmin: (interacting sheet particles) skip the case if a pair comes closer than dmin on the way out."""
+    dr = dr or ["steps", "manual", "steps"]
+    if dmin is not None:
+        dr = ["steps", dr[1], dr[2]]
+    ctx.cls("drive:" + "/".join(dr))
     s0 = state(sim)
     sim.dt = dt
     if dmin is None:
-        sim.steps(n)
+        go(sim, n, dt, dr[0])
     else:
         for _ in range(n):
             if too_close(sim, dt, dmin):
@@ -366,8 +407,9 @@ def round_trip(sim, n, dt, ctx, what, P_min, details, dmin=None):
             return
     sim.synchronize()
     s1 = state(sim)
-    sim.dt = -dt
-    sim.steps(n)
+    if dr[1] == "manual":
+        sim.dt = -dt
+    go(sim, n, -dt, dr[2])
     sim.synchronize()
     s2 = state(sim)
     N = len(s0)
@@ -415,7 +457,8 @@ def run_sym(c, ctx):
         ctx.cls("eos_phi1:" + p[2])
     dt = c["dt_frac"] * sysd["P_min"] * (-1.0 if c["backward_first"] else 1.0)
     seen = install_monitors(sim, c["monitor"], ctx)      # noqa: F841 (keeps the callbacks alive)
-    round_trip(sim, c["n"], dt, ctx, c["scheme"], sysd["P_min"], dict(scheme=c["scheme"], monitor=c["monitor"]))
+    round_trip(sim, c["n"], dt, ctx, c["scheme"], sysd["P_min"], dict(scheme=c["scheme"], monitor=c["monitor"]),
+               dr=c.get("drive"))
 
 
 def run_sei(c, ctx):
@@ -447,7 +490,8 @@ def run_sei(c, ctx):
     dt = c["dt_frac"] * P * (-1.0 if c["backward_first"] else 1.0)
     ctx.cls("sei")
     seen = install_monitors(sim, c["monitor"], ctx)      # noqa: F841
-    round_trip(sim, c["n"], dt, ctx, "sei", P, dict(OMEGA=Om), dmin=0.05 if c["gravity"] == "basic" else None)
+    round_trip(sim, c["n"], dt, ctx, "sei", P, dict(OMEGA=Om), dmin=0.05 if c["gravity"] == "basic" else None,
+               dr=c.get("drive"))
 
 
 def subs(tier):
